@@ -2,6 +2,8 @@ package main
 
 import (
 	"fmt"
+	"go/token"
+	"go/types"
 	"sort"
 	"strings"
 
@@ -447,6 +449,42 @@ func ruleGlobals(c *Ctx) {
 			}
 			seen[k] = true
 			c.bad("global "+g.Name(), "written by "+fnName(f), c.P.ipos(in), "a package-level variable is written by code reachable from the API: it is shared by every DB in the process and protected by no per-database lock")
+		})
+	}
+	// package-level variables that hold a mutable reference (pointer, map, slice, channel) and are handed
+	// to a call from API-reachable code: the callee can mutate the shared object (e.g. a *rand.Rand)
+	nRef := 0
+	for _, f := range cone {
+		if f.Name() == "init" {
+			continue
+		}
+		calls(f, func(ci ssa.CallInstruction) {
+			all := append([]ssa.Value{}, ci.Common().Args...)
+			if ci.Common().IsInvoke() {
+				all = append(all, ci.Common().Value)
+			}
+			for _, a := range all {
+				ld, ok := resolve1(a).(*ssa.UnOp)
+				if !ok || ld.Op != token.MUL {
+					continue
+				}
+				g, ok := ld.X.(*ssa.Global)
+				if !ok || g.Pkg == nil || !strings.HasPrefix(g.Pkg.Pkg.Path(), modPath) {
+					continue
+				}
+				switch derefT(g.Type()).Underlying().(type) {
+				case *types.Pointer, *types.Map, *types.Slice, *types.Chan:
+				default:
+					continue
+				}
+				nRef++
+				k := gw{g.Name(), fnName(f)}
+				if seen[k] {
+					continue
+				}
+				seen[k] = true
+				c.bad("global "+g.Name(), "used through a call by "+fnName(f), c.P.ipos(ci), "a package-level variable holding a mutable object ("+derefT(g.Type()).String()+") is passed to "+calleeName(ci.Common())+" from code reachable from the API: every DB of the process shares it and no per-database lock protects it")
+			}
 		})
 	}
 	c.Sites += n
